@@ -272,6 +272,28 @@ func a() error {
 // b doc h
 func b() {} // eol b h
 `},
+	{name: "first-decl-kind-change", marker: "old",
+		patch: "@@\n@@\n-func old() {}\n+var old = func() {}\n",
+		src: `package p // trailing the clause f
+
+func old() {}
+
+// keep doc f
+func keep() {}
+`},
+	{name: "single-line-imports", marker: "New", imports: true,
+		patch: "@@\nvar x expression\n@@\n-import \"errors\"\n\n-errors.New(x)\n+fail(x)\n",
+		src: `package p
+
+import "a" // why a
+import "errors"
+import "b" // why b
+
+var _ = a.A + b.B
+
+// e doc s
+var e = errors.New("x") // eol e s
+`},
 	{name: "two-changes", marker: "old", fixed: "gone",
 		patch: "@@\nvar x expression\n@@\n-old(x)\n+mid(x)\n\n@@\n@@\n-func gone() {}\n+var gone = func() {}\n",
 		src: `package p
@@ -376,12 +398,28 @@ func StubC17ParseFile(fset *token.FileSet, filename string, src any, mode parser
 	}
 	if st.cs.imports {
 		for i := range st.decls {
-			if st.isImport[i] {
+			if st.isImport[i] && c17ImportTouched(st.cs, st.decls[i]) {
 				st.touched[i] = st.any
 			}
 		}
 	}
 	return f, nil
+}
+
+// c17ImportTouched: a patch that adds an import may rewrite any import
+// declaration (the new spec is merged into one of them); a patch that only
+// deletes an import rewrites the declaration holding that path and no other.
+func c17ImportTouched(cs c17Case, d ast.Decl) bool {
+	if strings.Contains(cs.patch, "+import") {
+		return true
+	}
+	gd := d.(*ast.GenDecl)
+	for _, sp := range gd.Specs {
+		if is, ok := sp.(*ast.ImportSpec); ok && strings.Contains(cs.patch, "-import "+is.Path.Value) {
+			return true
+		}
+	}
+	return false
 }
 
 func c17DocOf(d ast.Decl) *ast.CommentGroup {
@@ -548,7 +586,7 @@ func ReplayC17Comments() {
 	}
 	if cs.imports {
 		for i := range st.decls {
-			if st.isImport[i] {
+			if st.isImport[i] && c17ImportTouched(cs, st.decls[i]) {
 				st.touched[i] = st.any
 			}
 		}
